@@ -13,8 +13,22 @@ Open Scope N_scope.
 Definition nm (s : string) : str := asc s.
 Definition pname (s : string) : pv := PStr (nm s).
 
+(* ---------- registry objects created by the caller ---------- *)
+(* a JWSRegistry / rfc7797 JWSRegistry / JWERegistry instance: vars(reg).  Only
+   [ro_allowed] is read by the gate; the other attributes are carried so that the
+   model can say that no call changes them. *)
+Inductive regcls := RcJws | Rc7797 | RcJwe.
+Record regobj := {
+  ro_cls : regcls;
+  ro_allowed : pv;                (* reg.allowed *)
+  ro_strict : bool;               (* reg.strict_check_header *)
+  ro_verify_all : bool;           (* reg.verify_all_recipients (JWE; true otherwise) *)
+  ro_extra_headers : list str     (* keys of reg.header_registry beyond the class default *)
+}.
+
 (* ---------- process-wide state ---------- *)
 Record world := {
+  w_regs : list regobj;           (* the caller's registry objects, in creation order *)
   w_jws : list jws_alg_row;       (* JWSRegistry.algorithms, dict order, keyed by name *)
   w_jws_rec : list string;        (* JWSRegistry.recommended *)
   w_alg : list jwe_alg_row;       (* JWERegistry.algorithms["alg"] *)
@@ -30,6 +44,7 @@ Definition allowed_pv (a : option (list string)) : pv :=
 
 (* the state right after `import joserfc.jws, joserfc.jwe` *)
 Definition w0 : world := {|
+  w_regs := [];
   w_jws := jws_alg_table; w_jws_rec := jws_recommended;
   w_alg := jwe_alg_table; w_enc := jwe_enc_table; w_zip := jwe_zip_table;
   w_jwe_rec := jwe_recommended;
@@ -38,6 +53,7 @@ Definition w0 : world := {|
 
 (* the state after register_ecdh_1pu(); register_chaha20_poly1305() *)
 Definition w0_drafts : world := {|
+  w_regs := [];
   w_jws := jws_alg_table_drafts; w_jws_rec := jws_recommended_drafts;
   w_alg := jwe_alg_table_drafts; w_enc := jwe_enc_table_drafts; w_zip := jwe_zip_table_drafts;
   w_jwe_rec := jwe_recommended_drafts;
@@ -45,6 +61,7 @@ Definition w0_drafts : world := {|
   w_jwe_def := allowed_pv jwe_default_registry_allowed_drafts |}.
 
 Definition w_empty : world := {|
+  w_regs := [];
   w_jws := []; w_jws_rec := []; w_alg := []; w_enc := []; w_zip := []; w_jwe_rec := [];
   w_jws_def := PNone; w_jwe_def := PNone |}.
 
@@ -267,20 +284,24 @@ Definition rec_add (l : list string) (flag : bool) (n : string) : list string :=
   if flag then l ++ [n] else l.
 
 Definition reg_jws (w : world) (r : jws_alg_row) : world := {|
+  w_regs := w_regs w;
   w_jws := set_row ja_name (w_jws w) r; w_jws_rec := rec_add (w_jws_rec w) (ja_recommended r) (ja_name r);
   w_alg := w_alg w; w_enc := w_enc w; w_zip := w_zip w; w_jwe_rec := w_jwe_rec w;
   w_jws_def := w_jws_def w; w_jwe_def := w_jwe_def w |}.
 Definition reg_alg (w : world) (r : jwe_alg_row) : world := {|
+  w_regs := w_regs w;
   w_jws := w_jws w; w_jws_rec := w_jws_rec w;
   w_alg := set_row ea_name (w_alg w) r; w_enc := w_enc w; w_zip := w_zip w;
   w_jwe_rec := rec_add (w_jwe_rec w) (ea_recommended r) (ea_name r);
   w_jws_def := w_jws_def w; w_jwe_def := w_jwe_def w |}.
 Definition reg_enc (w : world) (r : jwe_enc_row) : world := {|
+  w_regs := w_regs w;
   w_jws := w_jws w; w_jws_rec := w_jws_rec w;
   w_alg := w_alg w; w_enc := set_row ee_name (w_enc w) r; w_zip := w_zip w;
   w_jwe_rec := rec_add (w_jwe_rec w) (ee_recommended r) (ee_name r);
   w_jws_def := w_jws_def w; w_jwe_def := w_jwe_def w |}.
 Definition reg_zip (w : world) (r : jwe_zip_row) : world := {|
+  w_regs := w_regs w;
   w_jws := w_jws w; w_jws_rec := w_jws_rec w;
   w_alg := w_alg w; w_enc := w_enc w; w_zip := set_row ez_name (w_zip w) r;
   w_jwe_rec := rec_add (w_jwe_rec w) (ez_recommended r) (ez_name r);
@@ -288,15 +309,22 @@ Definition reg_zip (w : world) (r : jwe_zip_row) : world := {|
 
 Inductive loc := LAlg | LEnc | LZip.
 
+(* how a call designates its registry= argument: not passed, an object constructed
+   for this call, or one of the caller's long-lived objects (index into w_regs) *)
+Inductive regsel := RAbsent | RFresh (c : regcls) (allowed : pv) | RRef (i : nat).
+Inductive getter := GJws | GJwe (l : loc).
+
 Inductive call :=
 | CallJwsGet (allowed name : pv)                 (* JWSRegistry(algorithms=allowed).get_alg(name) *)
 | CallJwsDefGet (name : pv)                      (* rfc7515 default_registry.get_alg(name) *)
 | CallJweGet (l : loc) (allowed name : pv)       (* JWERegistry(algorithms=allowed).get_<l>(name) *)
 | CallJweDefGet (l : loc) (name : pv)
-| CallJwsSign (k : jws_kind) (algorithms : pv) (registry : option pv) (algs : list pv)
-| CallJwsVerify (k : jws_kind) (algorithms : pv) (registry : option pv) (algs : list pv)
-| CallJwe (algorithms : pv) (registry : option pv) (enc : pv) (algs : list pv) (zip : option pv)
-| CallJwt (verify : bool) (algorithms : pv) (r : regarg) (alg : pv) (enc zip : option pv)
+| CallRefGet (g : getter) (i : nat) (name : pv)  (* reg_i.get_*(name) on a caller object *)
+| CallNewReg (o : regobj)                        (* the caller constructs a registry *)
+| CallJwsSign (k : jws_kind) (algorithms : pv) (registry : regsel) (algs : list pv)
+| CallJwsVerify (k : jws_kind) (algorithms : pv) (registry : regsel) (algs : list pv)
+| CallJwe (algorithms : pv) (registry : regsel) (enc : pv) (algs : list pv) (zip : option pv)
+| CallJwt (verify : bool) (algorithms : pv) (registry : regsel) (alg : pv) (enc zip : option pv)
 | CallRegJws (r : jws_alg_row)
 | CallRegAlg (r : jwe_alg_row)
 | CallRegEnc (r : jwe_enc_row)
@@ -332,16 +360,56 @@ Definition jwt_verdict (w : world) (verify : bool) (algorithms : pv) (r : regarg
              else jwt_entry w algorithms r alg enc zip
   end.
 
+(* the registry object a call receives: None = argument not passed *)
+Definition resolve (w : world) (r : regsel) : res (option (regcls * pv)) :=
+  match r with
+  | RAbsent => Ok None
+  | RFresh c a => Ok (Some (c, a))
+  | RRef i => match nth_error (w_regs w) i with
+              | Some o => Ok (Some (ro_cls o, ro_allowed o))
+              | None => Err ERuntime              (* no such object: not a call the caller can make *)
+              end
+  end.
+Definition to_regarg (ro : option (regcls * pv)) : regarg :=
+  match ro with
+  | None => RNone
+  | Some (RcJwe, a) => RJwe a
+  | Some (_, a) => RJws a
+  end.
+Definition with_reg {A} (w : world) (r : regsel) (f : option (regcls * pv) -> res A) : res A :=
+  do ro <- resolve w r; f ro.
+
+Definition add_reg (w : world) (o : regobj) : world := {|
+  w_regs := w_regs w ++ [o];
+  w_jws := w_jws w; w_jws_rec := w_jws_rec w;
+  w_alg := w_alg w; w_enc := w_enc w; w_zip := w_zip w; w_jwe_rec := w_jwe_rec w;
+  w_jws_def := w_jws_def w; w_jwe_def := w_jwe_def w |}.
+
+(* every API call as a function world -> args -> verdict * world; the world carries
+   the class tables, the default registries and the caller's registry objects *)
 Definition step (w : world) (c : call) : verdict * world :=
   match c with
   | CallJwsGet a n => (VName (rname ja_name (jws_get_alg w a n)), w)
   | CallJwsDefGet n => (VName (rname ja_name (jws_get_alg w (w_jws_def w) n)), w)
   | CallJweGet l a n => (VName (jwe_get w l a n), w)
   | CallJweDefGet l n => (VName (jwe_get w l (w_jwe_def w) n), w)
-  | CallJwsSign k a r algs => (VUnit (runit (jws_entry w k a r algs)), w)
-  | CallJwsVerify k a r algs => (VUnit (jws_verify_op good_sig w k a r algs), w)
-  | CallJwe a r enc algs zip => (VUnit (runit (jwe_entry w a r enc algs zip)), w)
-  | CallJwt v a r alg enc zip => (VUnit (jwt_verdict w v a r alg enc zip), w)
+  | CallRefGet g i n =>
+      (VName (match nth_error (w_regs w) i with
+              | None => Err ERuntime
+              | Some o => match g with
+                          | GJws => rname ja_name (jws_get_alg w (ro_allowed o) n)
+                          | GJwe l => jwe_get w l (ro_allowed o) n
+                          end
+              end), w)
+  | CallNewReg o => (VUnit (Ok tt), add_reg w o)
+  | CallJwsSign k a r algs =>
+      (VUnit (with_reg w r (fun ro => runit (jws_entry w k a (option_map snd ro) algs))), w)
+  | CallJwsVerify k a r algs =>
+      (VUnit (with_reg w r (fun ro => jws_verify_op good_sig w k a (option_map snd ro) algs)), w)
+  | CallJwe a r enc algs zip =>
+      (VUnit (with_reg w r (fun ro => runit (jwe_entry w a (option_map snd ro) enc algs zip))), w)
+  | CallJwt v a r alg enc zip =>
+      (VUnit (with_reg w r (fun ro => jwt_verdict w v a (to_regarg ro) alg enc zip)), w)
   | CallRegJws r => (VUnit (Ok tt), reg_jws w r)
   | CallRegAlg r => (VUnit (Ok tt), reg_alg w r)
   | CallRegEnc r => (VUnit (Ok tt), reg_enc w r)
@@ -353,6 +421,25 @@ Definition is_register (c : call) : bool :=
   | CallRegJws _ | CallRegAlg _ | CallRegEnc _ | CallRegZip _ => true
   | _ => false
   end.
+
+Definition is_new (c : call) : bool := match c with CallNewReg _ => true | _ => false end.
+(* neither a registration nor a construction *)
+Definition is_plain (c : call) : bool := negb (is_register c) && negb (is_new c).
+
+(* the registry objects a call refers to exist *)
+Definition sel_ok (w : world) (r : regsel) : bool :=
+  match r with RRef i => Nat.ltb i (length (w_regs w)) | _ => true end.
+Definition refs_ok (w : world) (c : call) : bool :=
+  match c with
+  | CallRefGet _ i _ => Nat.ltb i (length (w_regs w))
+  | CallJwsSign _ _ r _ | CallJwsVerify _ _ r _ | CallJwe _ r _ _ _ | CallJwt _ _ r _ _ _ => sel_ok w r
+  | _ => true
+  end.
+
+(* same class tables and default registries *)
+Definition same_tables (a b : world) : Prop :=
+  w_jws a = w_jws b /\ w_jws_rec a = w_jws_rec b /\ w_alg a = w_alg b /\ w_enc a = w_enc b /\
+  w_zip a = w_zip b /\ w_jwe_rec a = w_jwe_rec b /\ w_jws_def a = w_jws_def b /\ w_jwe_def a = w_jwe_def b.
 
 (* state after a history *)
 Definition run (h : list call) (w : world) : world :=
